@@ -166,6 +166,15 @@ class SymRangeIter(_Generic):
             return [z3.And(j.t >= to_z3(self.lo), j.t < to_z3(self.hi))]
 
         cx = ctx()
+        mk = getattr(cx, "range_inv_spec_factory", None)
+        if mk is not None:
+            spec = mk(self, env)
+            if spec is not None:
+                lo = to_z3(self.lo)
+
+                def bind_at(e, k):
+                    e.vars[st.target.id] = SV(lo + k)
+                return run_invariant_loop(interp, st, env, SV(to_z3(self.hi) - lo), bind_at, spec, label=getattr(spec, "label", "range"))
         lv = cx.__dict__.setdefault("loop_vars", {})
         lv[j.t.decl().name()] = (self.lo, self.hi, len(cx.pc), len(cx.hyps), cx.counter.n)
         inv = getattr(cx, "loop_invariants", {}).get(st.lineno)
@@ -632,8 +641,11 @@ class AppendLog(FnArr):
     """a list that is empty before an invariant loop and only appended to inside it: log(k) = something was appended in iteration k (at most once
     per iteration); the appended values are recorded for the contract"""
 
-    def __init__(self, name):
-        FnArr.__init__(self, lambda i: z3.BoolVal(False), None, "Bool", name)
+    def __init__(self, name, initial=()):
+        self.offset = len(initial)
+        self.initial = list(initial)
+        n0 = self.offset
+        FnArr.__init__(self, (lambda i: z3.And(i >= 0, i < n0)) if n0 else (lambda i: z3.BoolVal(False)), None, "Bool", name)
         self.values = []
 
     def append(self, v):
@@ -642,7 +654,7 @@ class AppendLog(FnArr):
         if k is None:
             raise Unsupported("append to a logged list outside its invariant loop")
         self.values.append((k, v, [e[0] for e in cx.pc]))
-        self[SV(k)] = True
+        self[SV(k + self.offset)] = True
 
 
 class InvSpec:
@@ -667,11 +679,14 @@ def run_invariant_loop(interp, st, env, n, bind_at, spec, label="loop"):
     cx = ctx()
     from ..interp import Break, Continue
     objs = {}
+    scalars = dict(getattr(spec, "scalars", {}) or {})  # loop-carried numbers (name -> "Int" | "Real"): havocked per iteration like the arrays
     for v in spec.state:
         o = env.get(v) if env.has(v) else None
-        if isinstance(o, list) and o == [] and spec.state[v] == "Bool":
-            # an empty Python list that the loop only appends to: represented by the set of iteration numbers in which something was appended
-            o = AppendLog(v)
+        if isinstance(o, list) and len(o) <= 1 and spec.state[v] == "Bool":
+            # a Python list (empty or with one initial element) that the loop only appends to: represented by the set of positions filled so far;
+            # the element appended in iteration k lands at position len(initial list) + k
+            init = list(o)
+            o = AppendLog(v, init)
             _set(env, v, o)
         if not isinstance(o, FnArr):
             raise Unsupported(f"invariant loop: state variable {v} is not an index-function array/set")
@@ -686,13 +701,17 @@ def run_invariant_loop(interp, st, env, n, bind_at, spec, label="loop"):
             return lambda i, fn=fn: fn(i) != 0
         raise Unsupported(f"invariant loop: state variable {v} has element type {act}, the contract expects {dec}")
     S_init = {v: view(v, o.f) for v, o in objs.items()}
-    G_init = spec.ghost_init()
+    for sname in scalars:
+        S_init[sname] = to_z3(env.get(sname))
+    G_init = spec.ghost_init() if not hasattr(spec, "ghost_init_from") else spec.ghost_init_from(S_init, objs)
     for nm, f in spec.inv(z3.IntVal(0), S_init, G_init):
         cx.oblige(f"inv.init.{label}.{nm}", f, kind="inv")
     u = next(cx.counter)
     k = z3.Int(f"k!{u}")
     S_raw = {v: FnArr.fresh_fn(f"{v}@k!{u}", objs[v].sort) for v in spec.state}
     S = {v: view(v, S_raw[v]) for v in spec.state}
+    for sname, sort in scalars.items():
+        S[sname] = cx.fresh(f"{sname}@k", sort)
     G = {g: FnArr.fresh_fn(f"{g}@k!{u}", s) for g, s in spec.ghosts.items()}
     n_pc = len(cx.pc)
     nt = to_z3(n)
@@ -702,6 +721,8 @@ def run_invariant_loop(interp, st, env, n, bind_at, spec, label="loop"):
     cx._solver = None
     for v, o in objs.items():
         o.f = S_raw[v]
+    for sname in scalars:
+        _set(env, sname, SV(S[sname]))
     bind_at(env, k)
     cx.inv_k = k
     try:
@@ -714,6 +735,8 @@ def run_invariant_loop(interp, st, env, n, bind_at, spec, label="loop"):
         if env.get(v) is not objs[v]:
             raise Unsupported(f"invariant loop: state variable {v} was rebound inside the loop")
     S1 = {v: view(v, o.f) for v, o in objs.items()}
+    for sname in scalars:
+        S1[sname] = to_z3(env.get(sname))
     G1 = spec.ghost_step(k, S, S1, G)
     for nm, f in spec.inv(k + 1, S1, G1):
         for j, part in enumerate(_split_conj(f)):
@@ -722,17 +745,21 @@ def run_invariant_loop(interp, st, env, n, bind_at, spec, label="loop"):
     cx._solver = None
     S2_raw = {v: FnArr.fresh_fn(f"{v}@exit!{u}", objs[v].sort) for v in spec.state}
     S2 = {v: view(v, S2_raw[v]) for v in spec.state}
+    for sname, sort in scalars.items():
+        S2[sname] = cx.fresh(f"{sname}@exit", sort)
     G2 = {g: FnArr.fresh_fn(f"{g}@exit!{u}", s) for g, s in spec.ghosts.items()}
     for nm, f in spec.inv(nt, S2, G2):
         cx.assume(f)
     for v, o in objs.items():
         o.f = S2_raw[v]
+    for sname in scalars:
+        _set(env, sname, SV(S2[sname]))
     cx.__dict__.setdefault("loop_exit", {})[label] = {"S": S2, "G": G2}
     import ast
     for node in ast.walk(ast.Module(body=st.body, type_ignores=[])):
         if isinstance(node, (ast.Assign, ast.AugAssign)):
             for t in (node.targets if isinstance(node, ast.Assign) else [node.target]):
-                if isinstance(t, ast.Name) and t.id not in spec.state and env.has(t.id):
+                if isinstance(t, ast.Name) and t.id not in spec.state and t.id not in scalars and env.has(t.id):
                     _set(env, t.id, Poison(f"loop-local {t.id} after an invariant loop"))
 
 
